@@ -911,7 +911,7 @@ func (g *G) genC10(p *Plan) {
 
 // ---------------------------------------------------------------- C09
 
-var hostileInts = []string{"0", "-1", "1", "2", "1000", "1001", "9223372036854775807", "9223372036854775808", "-9223372036854775808",
+var hostileInts = []string{"0", "-1", "1", "2", "1000", "1001", "9999", "10000", "10001", "2147483647", "2147483648", "4294967296", "9223372036854775807", "9223372036854775808", "-9223372036854775808",
 	"99999999999999999999999", "abc", "", "1e3", "0x10", " 5", "٣"}
 
 func (g *G) hint() string { return hostileInts[g.rng.Intn(len(hostileInts))] }
